@@ -717,32 +717,36 @@ func (c *ctx) caseTruth(which string, k int, want string, q string, flags string
 	}
 	// the same through the real processor.IndexSearch (its own leaf construction) on a fake fraction index, both orders
 	for _, order := range []seq.DocsOrder{seq.DocsOrderDesc, seq.DocsOrderAsc} {
-		var got2 string
-		p, site, msg = guarded(func() { got2, err = searchTable(root, k, cs, order) })
-		if p {
-			c.violate(site, "parser-panics", "IndexSearch panicked: "+msg, replay)
-			return
-		}
-		if err != nil {
-			c.violate("frac/processor/search.go:IndexSearch", "search-error", fmt.Sprintf("IndexSearch on the parsed query %q: %v", q, err), replay)
-			return
-		}
-		if got2 != want {
-			// a leaf that asks for a token the index side never stores for these words (wrong case rule, lost bytes ...) is
-			// the parser's doing, not the search's
-			if miss := foreignLeaf(root, k, cs); miss != "" {
-				site, class := "parser:"+which, "meaning-changed"
-				if strings.Contains(miss, ":[") { // a point range whose bound is not the term the literal of the same text gets
-					site, class = "parser/token_range.go:parseRangeTerm", "range-bound-not-literal-term"
-					if which == "legacy" {
-						site = "parser/token_parser.go:parseRangeTerm"
-					}
-				}
-				c.violate(site, class, fmt.Sprintf("%q (case-sensitive=%v) asks for the token %s, which the indexer never stores for the written words: searching returns documents %s, the written expression denotes %s", q, cs, miss, got2, want), replay)
+		for _, w := range windowsFor(k) {
+			want := maskWindow(want, k, w)
+			var got2 string
+			p, site, msg = guarded(func() { got2, err = searchTable(root, k, cs, order, w) })
+			if p {
+				c.violate("frac/processor/"+strings.TrimPrefix(site, "frac/processor/"), "search-panics", fmt.Sprintf("IndexSearch on the parsed query %q (order %v, time window %s [%d, %d]) panicked: %s", q, order, w.name, w.from, w.to, msg), replay)
 				return
 			}
-			c.violate("frac/processor/search.go:IndexSearch", "meaning-changed", fmt.Sprintf("searching with %q (order %v) returns documents %s, the written expression denotes %s", q, order, got2, want), replay)
-			return
+			if err != nil {
+				c.violate("frac/processor/search.go:IndexSearch", "search-error", fmt.Sprintf("IndexSearch on the parsed query %q: %v", q, err), replay)
+				return
+			}
+			if got2 != want {
+				// a leaf that asks for a token the index side never stores for these words (wrong case rule, lost bytes ...) is
+				// the parser's doing, not the search's
+				if miss := foreignLeaf(root, k, cs); miss != "" {
+					site, class := "parser:"+which, "meaning-changed"
+					if strings.Contains(miss, ":[") { // a point range whose bound is not the term the literal of the same text gets
+						site, class = "parser/token_range.go:parseRangeTerm", "range-bound-not-literal-term"
+						if which == "legacy" {
+							site = "parser/token_parser.go:parseRangeTerm"
+						}
+					}
+					_ = w
+					c.violate(site, class, fmt.Sprintf("%q (case-sensitive=%v) asks for the token %s, which the indexer never stores for the written words: searching returns documents %s, the written expression denotes %s", q, cs, miss, got2, want), replay)
+					return
+				}
+				c.violate("frac/processor/search.go:IndexSearch", "meaning-changed", fmt.Sprintf("searching with %q (order %v, time window %s [%d, %d]) returns documents %s, the written expression denotes %s there", q, order, w.name, w.from, w.to, got2, want), replay)
+				return
+			}
 		}
 	}
 }
